@@ -11,6 +11,7 @@ from __future__ import annotations
 
 import asyncio
 import contextlib
+import re
 
 from vt import core
 from vt.mon import c36_agen as A
@@ -18,7 +19,11 @@ from vt.mon import c36_gen as GEN
 
 PID = "C36"
 LEVEL = "fault_enumeration"
-RULE = ("case = generated template set (main + parent chain + include + import library: blocks, "
+RULE = ("case = generated template set (main + parent chain + include targets inc.j2 / inc2.j2 (which "
+        "includes again) + import library; include statements = target form {name, name list with "
+        "the existing name first / last, variable, list of variables, missing} x {-, ignore missing} "
+        "x {-, with context, without context}, missing targets only with ignore missing, so every "
+        "close / cancel / raise point also falls inside included output: blocks, "
         "super, self.block(), scoped blocks in loops, macros/call blocks, loop filters on list / "
         "async-iterable / async-generator / filter-pipeline iterables, nested + recursive loops, "
         "break/continue) x one run spec (driver in {manual render_async, manual generate_async, "
@@ -49,7 +54,9 @@ FLOORS = {
               "counters": {"runs_cancel_manual": 2600, "runs_aclose": 1100, "runs_raise": 1800,
                            "runs_real_loop": 580, "gens_template_registered": 80000,
                            "gens_loop_filter_registered": 30000, "gens_block_registered": 19000,
-                           "census_checks": 6000}},
+                           "census_checks": 6000,
+                           "gens_of_include_templates_registered": 4000,
+                           "cases_with_include_ignore_missing_of_existing_target": 25}},
     "thorough": {"evaluations": 140000, "distinct": 140000,
                  "counters": {"runs_cancel_manual": 50000, "runs_aclose": 20000,
                               "runs_raise": 40000, "runs_real_loop": 30000,
@@ -57,6 +64,10 @@ FLOORS = {
                               "gens_loop_filter_registered": 700000,
                               "gens_block_registered": 400000, "census_checks": 140000}},
 }
+
+INC_IGN_EXISTING = re.compile(
+    r"\{% include (?:'inc2?\.j2'|\[[^\]]*'inc\.j2'[^\]]*\]|incname|\[nonename, incname\])"
+    r" ignore missing")
 
 CAUSE = {"complete": "completes", "raise": "body-raises", "aclose": "consumer-aclose",
          "cancel": "cancelled"}
@@ -206,6 +217,8 @@ def judge(ctx, ce, spec, res, san):
                 ctx.count("gens_%s_open_at_census(not deciding)" % origin)
             continue
         ntpl += 1
+        if role == "include":
+            ctx.count("gens_of_include_templates_registered")
         if sub == "nested":
             ctx.count("gens_loop_filter_registered")
         else:
@@ -288,6 +301,11 @@ def run_case(ctx, case, quick, rng):
         ctx.count("chunks_total", C)
         if r1["breaks"]:
             ctx.count("cases_with_break_taken")
+        allsrc = "".join(case["tpls"][n] for n in sorted(case["tpls"]))
+        if INC_IGN_EXISTING.search(allsrc):
+            ctx.count("cases_with_include_ignore_missing_of_existing_target")
+        if "without context %}" in allsrc and "include" in allsrc:
+            ctx.count("cases_with_include_without_context")
         if len(ctx.samples) < 3:
             ctx.sample({"tpls": case["tpls"], "N_data_events": N, "S_suspensions": S,
                         "C_chunks": C, "kind": case["kind"]})
